@@ -43,6 +43,8 @@ Record Fns (N : Num) := mkFns {
   f_lgamma : T N -> T N;
   f_tan    : T N -> T N;
   f_sin    : T N -> T N;
+  f_log1p  : T N -> T N;             (* math.log1p / np.log1p *)
+  f_expm1  : T N -> T N;             (* math.expm1 / np.expm1 *)
   f_pi     : T N;
   f_euler_gamma : T N;
   f_isfinite : T N -> bool;          (* np.isfinite *)
@@ -107,7 +109,8 @@ Record ExtFns (N : Num) := mkExtFns {
 
 (** ** Reals *)
 Definition RF (lgam : R -> R) (egamma : R) : Fns RNum :=
-  mkFns RNum Rtrigo_def.exp Rpower.ln R_sqrt.sqrt lgam Rtrigo1.tan Rtrigo_def.sin Rtrigo1.PI egamma
+  mkFns RNum Rtrigo_def.exp Rpower.ln R_sqrt.sqrt lgam Rtrigo1.tan Rtrigo_def.sin
+        (fun x => Rpower.ln (1 + x)%R) (fun x => (Rtrigo_def.exp x - 1)%R) Rtrigo1.PI egamma
         (fun _ => true) (fun _ => false)
         (fun n d _ => (IZR n / IZR d)%R).
 
@@ -144,6 +147,7 @@ Definition lookup (tb : list (Z * float * float)) (id : Z) (x : float) : float :
 
 Definition FF (tb : list (Z * float * float)) : Fns FNum :=
   mkFns FNum (lookup tb 0) (lookup tb 1) PrimFloat.sqrt (lookup tb 2) (lookup tb 3) (lookup tb 4)
+        (lookup tb 8) (lookup tb 9)
         0x1.921fb54442d18p+1%float 0x1.2788cfc6fb619p-1%float
         f_finite
         (fun x => andb (negb (f_is_nan x)) (negb (f_finite x)))
